@@ -8,6 +8,8 @@ def showFrames (fs : List Bytes) : String := ",".intercalate (fs.map Hex.render)
 /-- the same call on the TRANSLATION of the current source (Gen/SegmentsSrc.lean): empty when it agrees with the model, otherwise what it
     computes — so that a source whose translation no longer is the model shows up as a concrete input (and the real layer is compared with both) -/
 def srcRecvNote (s : St) (bs : Bytes) (mbuf : Bytes) (mup : List Bytes) : String :=
+  -- (the translation works on lists, one `drop` per frame: evaluated for reads up to 64 KiB, which is where every boundary of the layer lies)
+  if s.buf.length + bs.length > 65536 then "" else
   let g := Gen.SegSrc.runReceive (some s.enabled) s.buf bs
   if Gen.SegSrc.bufOf g == mbuf && g.up == mup && g.low == [] && !g.raised && !g.fuelOut then ""
   else s!";SOURCE-TRANSLATION up:{showFrames g.up};buf:{Hex.render (Gen.SegSrc.bufOf g)};low:{showFrames g.low};raised:{g.raised};fuelOut:{g.fuelOut}"
